@@ -199,7 +199,11 @@ impl<T: DictionaryAccess> MorphemeList<T> {
 
     pub fn lookup(&mut self, query: &str, subset: InfoSubset) -> SudachiResult<usize> {
         let end_chars = {
-            let input = &mut self.input.borrow_mut().input;
+            let part = &mut *self.input.borrow_mut();
+            // split_into reads the units of the found words with the subset of the list:
+            // it must be the one of this call, not the one of an earlier analysis
+            part.subset = subset;
+            let input = &mut part.input;
             input.reset().push_str(query);
             input.start_build()?;
             input.build(self.dict.grammar())?;
